@@ -55,8 +55,15 @@ def replay(model, obligation):
     p.shutdown()
     if not t1.is_closed or not cur.is_closed:
         fails.append('after shutdown(): current closed=%s, trashed connection closed=%s' % (cur.is_closed, t1.is_closed))
+    opened = []
+    t2 = Conn('trashed', in_flight=2)
+    p = mk_pool(None, opened)
+    p._trash = {t2}
+    p.shutdown()
+    if not t2.is_closed:
+        fails.append('after shutdown() of a pool without a current connection: trashed connection closed=%s' % t2.is_closed)
     # _replace interleaved with shutdown
-    if 'KF-C12' in obligation:
+    if 'shutdown-during-open' in obligation or '_replace' in obligation:
         opened = []
         old = Conn('old')
         p = mk_pool(old, opened, hook=lambda: p.shutdown())
